@@ -37,7 +37,7 @@ func NewBroker(w *World) *Broker {
 func (b *Broker) send(c *Conn, p *codec.Packet) {
 	raw := codec.Encode(p)
 	d, _ := codec.Decode(raw)
-	b.w.Rec.Emit(Ev{"e": "bs", "c": c.id, "pk": d})
+	b.w.Rec.Emit(Ev{"e": "bs", "c": c.id, "pk": Brief(d)})
 	c.Inject(raw)
 }
 
@@ -62,7 +62,7 @@ func (b *Broker) Consume(c *Conn, respond bool) bool {
 	}
 	b.mu.Lock()
 	defer b.mu.Unlock()
-	b.w.Rec.Emit(Ev{"e": "br", "c": c.id, "pk": p})
+	b.w.Rec.Emit(Ev{"e": "br", "c": c.id, "pk": Brief(p)})
 	if p.Bad != "" {
 		if respond {
 			c.BrokerClose()
